@@ -334,12 +334,251 @@ impl Prop for Grid {
     }
 }
 
+// --------------------------------------------------------------- members
+
+/// A type whose members are other user types: empty and zero-sized ones, packed, over-aligned,
+/// enums, extern types, vftable owners.
+pub struct Members;
+
+#[derive(Clone, Serialize, Deserialize)]
+pub struct MCase {
+    pub prog: Prog,
+    pub w: u64,
+}
+
+fn member_library(w: u64) -> Mod {
+    let mut m = Mod {
+        path: vec!["m".into()],
+        ..Default::default()
+    };
+    let ty = |name: &str, fields: Vec<Field>| TypeDef {
+        vis: true,
+        name: name.into(),
+        fields,
+        ..Default::default()
+    };
+    m.items.push(Item::Type(ty("Empty", vec![])));
+    m.items.push(Item::Type(ty("ZArr", vec![Field::new("z", Ty::n("u32").arr(0))])));
+    let mut p3 = ty("P3", vec![Field::new("b", Ty::Unk(3))]);
+    p3.packed = true;
+    m.items.push(Item::Type(p3));
+    let mut a16 = ty("A16", vec![Field::new("v", Ty::n("f32").arr(4))]);
+    a16.align = Some(Num::d(16));
+    m.items.push(Item::Type(a16));
+    let mut b = Field::new("b", Ty::n("u32"));
+    b.addr = Some(Num::d(4));
+    let mut pair = ty("Pair", vec![Field::new("a", Ty::n("u8")), b]);
+    pair.size = Some(Num::d(8));
+    m.items.push(Item::Type(pair));
+    let mut v = ty("V", vec![]);
+    v.vft = Some(Vft {
+        size: None,
+        funcs: vec![Func {
+            sty: 0,
+            vis: true,
+            name: "vf".into(),
+            doc: vec![],
+            args: vec![Arg::ConstSelf],
+            ret: None,
+            addr: None,
+            index: None,
+            cc: None,
+        }],
+    });
+    m.items.push(Item::Type(v));
+    for (name, base) in [("E16", "u16"), ("E64", "u64")] {
+        m.items.push(Item::Enum(EnumDef {
+            sty: 0,
+            vis: true,
+            name: name.into(),
+            doc: vec![],
+            base: base.into(),
+            variants: vec![Variant {
+                sty: 0,
+                name: "A".into(),
+                value: None,
+                default: false,
+                doc: vec![],
+            }],
+            singleton: None,
+            copyable: false,
+            cloneable: false,
+            defaultable: false,
+        }));
+    }
+    for (name, size, align) in [("X0a1", 0, 1), ("X0a2", 0, 2), ("X0a4", 0, 4), ("X0a8", 0, 8), ("X0a16", 0, 16), ("X12", 12, 4), ("X24a8", 24, 8)] {
+        m.ext_types.push(ExtType {
+            name: name.into(),
+            size: Num::d(size),
+            align: Num::d(align),
+        });
+    }
+    let _ = w;
+    m
+}
+
+const MEMBER_NAMES: &[&str] = &["Empty", "ZArr", "P3", "A16", "Pair", "V", "E16", "E64", "X0a1", "X0a2", "X0a4", "X0a8", "X0a16", "X12", "X24a8"];
+
+impl Prop for Members {
+    type Case = MCase;
+    crate::prog_shrink!();
+    fn name(&self) -> String {
+        "C03/members".into()
+    }
+    fn rule(&self) -> String {
+        "a type T of 1-5 fields whose types are other items of the module, by value, in arrays (length 0-3) or as #[base]: an empty struct, a struct holding only a zero-length array, a packed 3-byte struct, an align(16) struct, a struct with a vftable pointer, enums over u16/u64, extern types of size 0 with alignments 1..16 and of size 12/24; mixed with scalars and pointers; per field address none/at cursor/after a gap/misaligned/overlapping; size, align, packed as in C03/random; widths 4 and 8. Oracle: build Ok iff the reference model says realisable, and then resolved size/align equal the model's. Non-trivial: a zero-sized or over-aligned member, or a packed member in a non-packed type".into()
+    }
+    fn gen(&self, t: &mut Tape) -> MCase {
+        let w = if t.chance(1, 2) { 8 } else { 4 };
+        let lib = member_library(w);
+        let libprog = Prog { mods: vec![lib.clone()] };
+        let mut model = Model::new(&libprog, w);
+        let packed = t.chance(1, 6);
+        let nf = 1 + t.below(5);
+        let mut cursor = 0u64;
+        let mut fields = vec![];
+        for i in 0..nf {
+            let mut is_struct = false;
+            let ty = match t.below(10) {
+                0..=5 => {
+                    let n = *t.pick(MEMBER_NAMES);
+                    is_struct = matches!(n, "Empty" | "ZArr" | "P3" | "A16" | "Pair");
+                    if t.chance(1, 5) {
+                        is_struct = false;
+                        Ty::n(n).arr(t.below(4))
+                    } else {
+                        Ty::n(n)
+                    }
+                }
+                6 | 7 => scalar(t),
+                8 => scalar(t).cptr(),
+                _ => Ty::Unk(t.small(9)),
+            };
+            let (s, a) = match model.ty_info(0, &ty) {
+                TyRes::Ok { size, align } => (size, if packed { 1 } else { align.max(1) }),
+                _ => (0, 1),
+            };
+            let aligned = (cursor + a - 1) / a * a;
+            let addr = match t.below(12) {
+                0..=3 => None,
+                4..=6 => Some(aligned),
+                7 | 8 => Some(aligned + a * t.small(4)),
+                9 => Some(cursor + t.small(5)),
+                10 => Some(cursor.saturating_sub(1 + t.small(4))),
+                _ => Some(t.small(64)),
+            };
+            let off = addr.unwrap_or(cursor).max(cursor);
+            cursor = off + s;
+            fields.push(Field {
+                sty: 0,
+                vis: true,
+                name: format!("f{i}"),
+                ty,
+                addr: addr.map(|a| Num::d(a as i128)),
+                base: is_struct && t.chance(1, 4),
+                doc: vec![],
+            });
+        }
+        let size = match t.below(10) {
+            0..=4 => None,
+            5 | 6 => Some(cursor),
+            7 => Some((cursor + 7) / 8 * 8 + 8 * t.small(3)),
+            8 => Some((cursor + 15) / 16 * 16),
+            _ => Some(cursor.saturating_sub(1 + t.small(3))),
+        };
+        let align = match t.below(10) {
+            0..=5 => None,
+            6 | 7 => Some(*t.pick(&[1u64, 2, 4, 8, 16, 32])),
+            8 => Some(w),
+            _ => Some(16),
+        };
+        let td = TypeDef {
+            sty: (t.below(4) as u8) | if t.chance(1, 4) { 0x80 } else { 0 },
+            vis: true,
+            name: "T".into(),
+            size: size.map(|v| Num::d(v as i128)),
+            align: align.map(|v| Num::d(v as i128)),
+            packed,
+            fields,
+            ..Default::default()
+        };
+        let mut m = lib;
+        m.items.push(Item::Type(td));
+        MCase { prog: Prog { mods: vec![m] }, w }
+    }
+    fn judge(&self, c: &MCase) -> Outcome {
+        let Some(ti) = c.prog.mods[0].items.iter().position(|i| i.name() == "T") else {
+            return Outcome::discard("no-subject-type");
+        };
+        let Item::Type(td) = &c.prog.mods[0].items[ti] else { return Outcome::discard("no-subject-type") };
+        let mut model = Model::new(&c.prog, c.w);
+        // the helper types must be fine on their own
+        for i in 0..c.prog.mods[0].items.len() {
+            if i != ti && matches!(c.prog.mods[0].items[i], Item::Type(_)) {
+                match model.layout(0, i) {
+                    Ok(l) if l.reject.is_none() => {}
+                    Err(_) | Ok(_) => {
+                        if matches!(c.prog.mods[0].items[i], Item::Type(_)) {
+                            return Outcome::discard("helper-type-not-realisable");
+                        }
+                    }
+                }
+            }
+        }
+        let lay = match model.layout(0, ti) {
+            Ok(l) => l,
+            Err(s) => return Outcome::discard(&format!("model-stuck:{s:?}")),
+        };
+        let res = build_mem(&print_prog(&c.prog), c.w as usize, &MemOpts { emit: false, ..Default::default() });
+        let mut zero_or_over = false;
+        let mut packed_member = false;
+        for f in &td.fields {
+            if let TyRes::Ok { size, align } = model.ty_info(0, &f.ty) {
+                if (size == 0 && align > 1) || align > c.w {
+                    zero_or_over = true;
+                }
+            }
+            if f.ty.leaf() == Some("P3") && !td.packed {
+                packed_member = true;
+            }
+        }
+        let class = match &lay.reject {
+            None => "verdict:accept".to_string(),
+            Some(r) => format!("verdict:reject:{r:?}"),
+        };
+        let nontrivial = zero_or_over || packed_member;
+        let o = match (&lay.reject, &res) {
+            (_, Res::Panic(p)) => Outcome::fail("panic", format!("pyxis panicked: {p}")),
+            (None, Res::Ok(b)) => match b.items.get("m::T") {
+                Some(info) if info.size as u64 == lay.size && info.align as u64 == lay.align => Outcome::pass(nontrivial),
+                Some(info) => Outcome::fail("size-align", format!("accepted, but resolved size/align {}/{} differ from the model's {}/{}", info.size, info.align, lay.size, lay.align)),
+                None => Outcome::fail("missing", "accepted, but the type is not in the registry".into()),
+            },
+            (Some(_), Res::Err(_)) => Outcome::pass(nontrivial),
+            (None, Res::Err(e)) => Outcome::fail("spurious-reject", format!("model: realisable (size {} align {}), pyxis: {e}", lay.size, lay.align)),
+            (Some(r), Res::Ok(_)) => Outcome::fail(&format!("spurious-accept:{r:?}"), format!("model: not realisable ({r:?}), pyxis accepted it")),
+        };
+        let mut o = o.class(&class);
+        if zero_or_over {
+            o = o.class("zero-sized-aligned-or-over-aligned-member");
+        }
+        if packed_member {
+            o = o.class("packed-member-in-non-packed-type");
+        }
+        o
+    }
+    fn show(&self, c: &MCase) -> Value {
+        json!({"width": c.w, "pyxis": prog_text(&c.prog)})
+    }
+}
+
 pub fn props() -> Vec<Box<dyn DynProp>> {
-    vec![Box::new(Random), Box::new(Grid { thorough: false })]
+    vec![Box::new(Random), Box::new(Grid { thorough: false }), Box::new(Members)]
 }
 
 pub fn run(ctx: &mut Ctx) {
     let q = ctx.quick();
     ctx.run(&Grid { thorough: !q }, &Params::new(0, 0, 0));
     ctx.run(&Random, &Params::new(if q { 100_000 } else { 3_000_000 }, 10, 120));
+    ctx.run(&Members, &Params::new(if q { 60_000 } else { 2_000_000 }, 10, 120).shrink(200));
 }
